@@ -144,8 +144,8 @@ MANIFEST = dict(
          "current tree is a configuration the theorems apply to. Tied by a differential run of real ClientSessions in a "
          "real Hub + BackendServer (signed requests) + in-memory Nextcloud + fake media server inside a synctest bubble; "
          "the judge evaluates the statement on every observed media-server call, delivery and open object.",
-    note="Two defects found with the harness and repaired in /repo: (fix: f538900) the revocation goroutine returned after "
-         "closing the camera publisher, the screen publisher survived the withdrawal of all permissions; (fix: 69ef016) "
+    note="Two defects found with the harness and repaired in /repo: (fix: c8d628f) the revocation goroutine returned after "
+         "closing the camera publisher, the screen publisher survived the withdrawal of all permissions; (fix: c35d137) "
          "the permissions of a join reply were only stored, a publisher created before the join (no room is needed to "
          "publish, sessions without permissions from the backend may publish anything) survived in a room that does not "
          "grant the permission. Both unrepaired configurations are proved witnesses (C08_early_return_leaves_screen, "
